@@ -5107,6 +5107,13 @@ namespace awkward {
         itemsize *= shape[(size_t)(j - 1)];
       }
 
+      // every element of a multidimensional array has to be converted, not
+      // only the first shape[0] of them
+      int64_t flatlength = 1;
+      for (auto x : shape) {
+        flatlength *= (int64_t)x;
+      }
+
       IdentitiesPtr identities = contiguous_self.identities();
       if (contiguous_self.identities().get() != nullptr) {
         identities = contiguous_self.identities().get()->deep_copy();
@@ -5115,47 +5122,47 @@ namespace awkward {
       switch (dtype_) {
       case util::dtype::boolean:
         ptr = as_type<bool>(reinterpret_cast<bool*>(contiguous_self.data()),
-                            contiguous_self.length(),
+                            flatlength,
                             dtype);
         break;
       case util::dtype::int8:
         ptr = as_type<int8_t>(reinterpret_cast<int8_t*>(contiguous_self.data()),
-                              contiguous_self.length(),
+                              flatlength,
                               dtype);
         break;
       case util::dtype::int16:
         ptr = as_type<int16_t>(reinterpret_cast<int16_t*>(contiguous_self.data()),
-                               contiguous_self.length(),
+                               flatlength,
                                dtype);
         break;
       case util::dtype::int32:
         ptr = as_type<int32_t>(reinterpret_cast<int32_t*>(contiguous_self.data()),
-                               contiguous_self.length(),
+                               flatlength,
                                dtype);
         break;
       case util::dtype::int64:
         ptr = as_type<int64_t>(reinterpret_cast<int64_t*>(contiguous_self.data()),
-                               contiguous_self.length(),
+                               flatlength,
                                dtype);
         break;
       case util::dtype::uint8:
         ptr = as_type<uint8_t>(reinterpret_cast<uint8_t*>(contiguous_self.data()),
-                               contiguous_self.length(),
+                               flatlength,
                                dtype);
         break;
       case util::dtype::uint16:
         ptr = as_type<uint16_t>(reinterpret_cast<uint16_t*>(contiguous_self.data()),
-                                contiguous_self.length(),
+                                flatlength,
                                 dtype);
         break;
       case util::dtype::uint32:
         ptr = as_type<uint32_t>(reinterpret_cast<uint32_t*>(contiguous_self.data()),
-                                contiguous_self.length(),
+                                flatlength,
                                 dtype);
         break;
       case util::dtype::uint64:
         ptr = as_type<uint64_t>(reinterpret_cast<uint64_t*>(contiguous_self.data()),
-                                contiguous_self.length(),
+                                flatlength,
                                 dtype);
         break;
       case util::dtype::float16:
@@ -5165,12 +5172,12 @@ namespace awkward {
         break;
       case util::dtype::float32:
         ptr = as_type<float>(reinterpret_cast<float*>(contiguous_self.data()),
-                             contiguous_self.length(),
+                             flatlength,
                              dtype);
         break;
       case util::dtype::float64:
         ptr = as_type<double>(reinterpret_cast<double*>(contiguous_self.data()),
-                              contiguous_self.length(),
+                              flatlength,
                               dtype);
         break;
       case util::dtype::float128:
@@ -5180,12 +5187,12 @@ namespace awkward {
         break;
       case util::dtype::complex64:
         ptr = as_type<std::complex<float>>(reinterpret_cast<std::complex<float>*>(contiguous_self.data()),
-                                           contiguous_self.length(),
+                                           flatlength,
                                            dtype);
         break;
       case util::dtype::complex128:
         ptr = as_type<std::complex<double>>(reinterpret_cast<std::complex<double>*>(contiguous_self.data()),
-                                            contiguous_self.length(),
+                                            flatlength,
                                             dtype);
         break;
       case util::dtype::complex256:
